@@ -13,6 +13,7 @@ import MidnightZK.Proofs.C07.VarlenShaD
 import MidnightZK.Proofs.C07.VarlenShaGen
 import MidnightZK.Proofs.C07.ChipDigest
 import MidnightZK.Proofs.C07.Chip512Digest
+import MidnightZK.Proofs.C07.RmdF
 import MidnightZK.Proofs.C10.Prime
 /-!
 # C07 — hash gadgets equal their reference functions on every message
@@ -999,6 +1000,146 @@ theorem sha512_digest_sound_native {a : Asg} (ha : ∀ c, a c < Gen.sha512Modulu
   exact sha512_digest_sound hpr (by decide +kernel) ha hext n hS
 
 end Sha512Chip
+
+/-! ## RIPEMD-160 chip wiring: emitter, generated gates, soundness of every operation for every assignment
+
+`Model/C07/RipemdChip.lean` mirrors `ripemd160_chip.rs` (+ `utils.rs: limb_lengths, limb_coeffs`) function by
+function as an emitter of regions (1541 regions for one block; selectors, ALL fixed cells — lookup tags and
+the coefficient cells `T2 … T5` of the left-rotation gate —, advice cells, copy constraints incl. the
+`assert_equal` of `prepare_spreaded`); its output is compared line by line with the recorded real synthesis
+on every run. `Gen/C07RmdGates.lean` holds the gate polynomials dumped from the real
+`RipeMD160Chip::configure` (the rotation gate queries fixed columns). The theorems are about ANY assignment
+`a` of all advice cells (canonical representatives `< p`, `p ≥ 2^66`). -/
+
+section RmdChip
+open Chip ChipR
+
+/-- Shape of the generated constraint system of the RIPEMD-160 chip: the two lookups read
+`(T_i, A_{2i}, A_{2i+1})`, the logical advice columns are a permutation of the eight shared columns, six
+fixed columns, the native modulus is the one of the Poseidon constants and exceeds `2^66`, and the numbers
+of polynomials per gate are those the soundness proofs use. -/
+theorem ripemd_chip_gates_shape :
+    Gen.rmdLookups = [(0, 0, 1), (1, 2, 3)] ∧
+    (List.range 8).all (fun c => Gen.rmdAdvCols.count c == 1) = true ∧ Gen.rmdAdvCols.length = 8 ∧
+    Gen.rmdFixedCols = [0, 1, 2, 3, 4, 5] ∧
+    Gen.rmdModulus = Gen.p ∧ 2 ^ 66 ≤ Gen.rmdModulus ∧
+    (Gen.rmdGates .lookup).length = 0 ∧ (Gen.rmdGates .rot).length = 2 ∧ (Gen.rmdGates .d11).length = 1 ∧
+    (Gen.rmdGates .sumEvn).length = 1 ∧ (Gen.rmdGates .sumOdd).length = 1 ∧ (Gen.rmdGates .add).length = 1 ∧
+    (Gen.rmdGates .modadd).length = 1 := by
+  decide +kernel
+
+/-- **The loaded table.** Every row `(tag, plain, spreaded)` of the model of `ripemd160/utils.rs:
+gen_spread_table` (tags `0 … 11`; compared row by row with the table the real chip loads) satisfies the
+predicate `InTable` the soundness theorems assume of a lookup. -/
+theorem ripemd_spread_table_spec :
+    ∀ g ∈ ChipR.spreadTable, ∀ r ∈ g.2, InTable g.1 r.1 r.2 := by
+  intro g hg r hr
+  simp only [ChipR.spreadTable, List.mem_map, List.mem_range] at hg
+  obtain ⟨len, hlen, rfl⟩ := hg
+  simp only [List.mem_map, List.mem_range] at hr
+  obtain ⟨i, hi, rfl⟩ := hr
+  exact ⟨hi, spread32_of_lt (by omega) hi⟩
+
+/-- **`prepare_spreaded`** (with its `assert_equal`): WHATEVER the word cell holds, it is a 32-bit word and the
+returned cell holds its spreaded form (the odd limbs are copy-constrained to the fixed zero, the lookups
+then force `~0 = 0`, the `spr_sum_evn` and `11-11-10` gates do the rest). This is where every operand of
+`f` gets its range check. -/
+theorem ripemd_prepare_spreaded_sound {p : Nat} {a : Asg} {k : Nat} (hp : 2 ^ 66 ≤ p) (ha : ∀ c, a c < p)
+    {w : Src} {x : Nat} (hS : ChipR.Sat p Gen.rmdGates a k (prepareSpreaded k w).1) (hW : get a w = x) :
+    IsSpr a (prepareSpreaded k w).2 x :=
+  prepareSpreaded_sound hp ha hS hW
+
+/-- **The boolean building blocks**: `f_type_one` returns `X ⊕ Y ⊕ Z`, `and` returns `X ∧ Y`, `f_type_two`
+returns `(X ∧ Y) ∨ (¬X ∧ Z)` (the prover-chosen `~(¬X)` is forced by `~X + ~(¬X) = MASK_EVN_64`),
+`f_type_three` (five regions; `~(¬Y)` comes from the native gadget's `linear_combination`, stated interface
+`hLC`) returns `(X ∨ ¬Y) ⊕ Z`. -/
+theorem ripemd_f_types_sound {p : Nat} {a : Asg} {k : Nat} (hp : 2 ^ 66 ≤ p) (ha : ∀ c, a c < p)
+    {sX sY sZ : Src} {x y z : Nat} (hX : IsSpr a sX x) (hY : IsSpr a sY y) (hZ : IsSpr a sZ z) :
+    (ChipR.Sat p Gen.rmdGates a k (fTypeOne k sX sY sZ).1 → IsPlain a (fTypeOne k sX sY sZ).2 (x ^^^ y ^^^ z)) ∧
+    (ChipR.Sat p Gen.rmdGates a k (ChipR.and k sX sY).1 → IsPlain a (ChipR.and k sX sY).2 (x &&& y)) ∧
+    (ChipR.Sat p Gen.rmdGates a k (fTypeTwo k sX sY sZ).1 → IsPlain a (fTypeTwo k sX sY sZ).2 (Rmd.f 1 x y z)) ∧
+    (∀ xi, ChipR.TraceSat p Gen.rmdGates a k (fTypeThree k xi sX sY sZ).1 →
+      a (.ext xi) + get a sY = maskEvn64 → IsPlain a (fTypeThree k xi sX sY sZ).2 (Rmd.f 2 x y z)) :=
+  ⟨fun h => fTypeOne_sound hp ha h hX hY hZ, fun h => and_sound hp ha h hX hY,
+   fun h => fTypeTwo_sound hp ha h hX hY hZ, fun xi h l => fTypeThree_sound hp ha h hX hY hZ l⟩
+
+/-- Non-vacuity: the hypotheses are satisfiable with the real modulus and the generated gates (honest witness
+of an `and` region on non-trivial words; kernel evaluation of the executable form of `Sat`), and the output
+cell holds `x ∧ y`. For whole blocks the executable check `satFailures` is run on every region of the REAL
+prover's witness in the correspondence step (`rmdsat`, 1541 regions per block). -/
+example :
+    ChipR.Sat Gen.rmdModulus Gen.rmdGates (andWitness 0xdeadbeef 0x12345678) 0 (ChipR.and 0 (.ext 0) (.ext 1)).1 ∧
+    andWitness 0xdeadbeef 0x12345678 (.reg 0 0 4) = 0xdeadbeef &&& 0x12345678 ∧
+    (0xdeadbeef &&& 0x12345678) ≠ 0 := by
+  refine ⟨ChipR.satB_sound ?_, ?_, ?_⟩ <;> decide +kernel
+
+/-- **`fn f(idx, X, Y, Z)` for every round index `idx < 80`** (left line `idx = j`, right line `idx = 79 − j`):
+for every assignment satisfying the 4 (types one/two) or 8 (type three) emitted regions, WHATEVER the three
+input cells hold, they hold 32-bit words and the returned cell holds the RIPEMD-160 function
+`f_{idx/16}(X, Y, Z)` of the reference (`Rmd.f`). `hLC` is the interface of the one native
+`linear_combination` call a type-three `f` makes (its output cell plus `~Y` is `MASK_EVN_64`). -/
+theorem ripemd_f_sound {p : Nat} {a : Asg} (hp : 2 ^ 66 ≤ p) (ha : ∀ c, a c < p) (em : Em) {idx : Nat}
+    (hidx : idx < 80) {X Y Z : Src} {x y z : Nat}
+    (hS : ChipR.TraceSat p Gen.rmdGates a em.k (fEmit em idx X Y Z).1)
+    (hX : get a X = x) (hY : get a Y = y) (hZ : get a Z = z)
+    (hLC : ∀ sY, (em.x, sY) ∈ (fEmit em idx X Y Z).2.2.lcs → a (.ext em.x) + get a sY = maskEvn64) :
+    IsPlain a (fEmit em idx X Y Z).2.1 (Rmd.f (idx / 16) x y z) ∧ x < 2 ^ 32 ∧ y < 2 ^ 32 ∧ z < 2 ^ 32 :=
+  fEmit_sound hp ha em hidx hS hX hY hZ hLC
+
+/-- **`left_rotate`** for every rotation amount the chip uses (`5 ≤ rot ≤ 15`: all entries of `S`, `S_PRIME`
+and the constant 10): the four limb lookups with the tags of `limb_lengths(rot)` and the two identities of the
+`left rotation` gate with the FIXED coefficient cells of `limb_coeffs(rot)` (evaluated from the model of
+`utils.rs`, whose values are compared cell by cell with the real synthesis) force the returned cell to hold
+the word rotated left by `rot` bits. -/
+theorem ripemd_left_rotate_sound {p : Nat} {a : Asg} {k : Nat} (hp : 2 ^ 66 ≤ p) (ha : ∀ c, a c < p)
+    {w : Src} {x rot : Nat} (h5 : 5 ≤ rot) (h15 : rot ≤ 15)
+    (hS : ChipR.Sat p Gen.rmdGates a k (leftRotate k w rot).1) (hW : IsPlain a w x) :
+    IsPlain a (leftRotate k w rot).2 (rotl 32 x rot) :=
+  leftRotate_sound hp ha h5 h15 hS hW
+
+/-- Every rotation amount of the generated tables `S`, `S_PRIME` is in the range `5 … 15` covered by
+`ripemd_left_rotate_sound` (and so is the constant `10`). -/
+theorem ripemd_rotation_amounts_covered :
+    (Gen.rmdS ++ Gen.rmdSPrime).all (fun row => row.all (fun s => decide (5 ≤ s ∧ s ≤ 15))) = true := by
+  decide +kernel
+
+/-- **`add_mod_2_32`** (up to four summands, padded with the fixed zero): the carry is range-checked by the
+tag-2 lookup, the result by its 11-11-10 limb lookups, so the returned cell holds the sum modulo `2^32`. -/
+theorem ripemd_add_mod_sound {p : Nat} {a : Asg} {k : Nat} (hp : 2 ^ 66 ≤ p) (ha : ∀ c, a c < p)
+    {s0 s1 s2 s3 : Src} {x0 x1 x2 x3 : Nat}
+    (hS : ChipR.Sat p Gen.rmdGates a k (ChipR.addMod k [s0, s1, s2, s3]).1)
+    (h0 : IsPlain a s0 x0) (h1 : IsPlain a s1 x1) (h2 : IsPlain a s2 x2) (h3 : IsPlain a s3 x3) :
+    IsPlain a (ChipR.addMod k [s0, s1, s2, s3]).2 ((x0 + x1 + x2 + x3) % 2 ^ 32) :=
+  addMod_sound hp ha hS h0 h1 h2 h3
+
+/-- Fewer than four summands: the emitter pads with the fixed zero exactly as `summands.resize(4, &zero)`. -/
+theorem ripemd_add_mod_padding (k : Nat) (s0 s1 s2 : Src) :
+    ChipR.addMod k [s0, s1] = ChipR.addMod k [s0, s1, zero, zero] ∧ ChipR.addMod k [s0, s1, s2] = ChipR.addMod k [s0, s1, s2, zero] :=
+  ⟨rfl, rfl⟩
+
+/-- **ripemd160_digest_sound_partial.** What is proved of the chain "gates → digest" for the RIPEMD-160 chip:
+every ingredient of one step `T = rol_s(A ⊞ f(B,C,D) ⊞ X ⊞ K) ⊞ E; C' = rol_10(C)` of either line — the
+function `f` of any round (incl. the range of its operands), the two modular additions and the two rotations
+— is sound for every satisfying assignment. MISSING for `ripemd160_digest_sound`: threading these through
+`halfRound` / `roundEmit` (regions of one step split by `TraceSat`), the induction over the 80 rounds against
+`Rmd.line`, the final state addition of `process_block` and the induction over the blocks. -/
+theorem ripemd160_digest_sound_partial {p : Nat} {a : Asg} (hp : 2 ^ 66 ≤ p) (ha : ∀ c, a c < p) :
+    (∀ (em : Em) (idx : Nat) (X Y Z : Src), idx < 80 →
+      ChipR.TraceSat p Gen.rmdGates a em.k (fEmit em idx X Y Z).1 →
+      (∀ sY, (em.x, sY) ∈ (fEmit em idx X Y Z).2.2.lcs → a (.ext em.x) + get a sY = maskEvn64) →
+      IsPlain a (fEmit em idx X Y Z).2.1 (Rmd.f (idx / 16) (get a X) (get a Y) (get a Z))) ∧
+    (∀ (k : Nat) (w : Src) (x rot : Nat), 5 ≤ rot → rot ≤ 15 →
+      ChipR.Sat p Gen.rmdGates a k (leftRotate k w rot).1 → IsPlain a w x →
+      IsPlain a (leftRotate k w rot).2 (rotl 32 x rot)) ∧
+    (∀ (k : Nat) (s0 s1 s2 s3 : Src) (x0 x1 x2 x3 : Nat),
+      ChipR.Sat p Gen.rmdGates a k (ChipR.addMod k [s0, s1, s2, s3]).1 →
+      IsPlain a s0 x0 → IsPlain a s1 x1 → IsPlain a s2 x2 → IsPlain a s3 x3 →
+      IsPlain a (ChipR.addMod k [s0, s1, s2, s3]).2 ((x0 + x1 + x2 + x3) % 2 ^ 32)) :=
+  ⟨fun em _ _ _ _ hidx hS hLC => (fEmit_sound hp ha em hidx hS rfl rfl rfl hLC).1,
+   fun _ _ _ _ h5 h15 hS hW => leftRotate_sound hp ha h5 h15 hS hW,
+   fun _ _ _ _ _ _ _ _ _ hS h0 h1 h2 h3 => addMod_sound hp ha hS h0 h1 h2 h3⟩
+
+end RmdChip
 
 end MidnightZK.C07
 
